@@ -10,8 +10,8 @@ import (
 // C16 governance gate and asset-parameter validity.
 type monC16 struct{}
 
-func newMonC16() *monC16      { return &monC16{} }
-func (m *monC16) Name() string { return "C16" }
+func newMonC16() *monC16           { return &monC16{} }
+func (m *monC16) Name() string     { return "C16" }
 func (m *monC16) Finish(r *Runner) {}
 
 func (m *monC16) OnStep(r *Runner, st *Step) {
